@@ -70,10 +70,11 @@ Fixpoint nth_N {A} (l : list A) (n : N) : option A :=
   | x :: r => if n =? 0 then Some x else nth_N r (n - 1)
   end.
 
-(* UnitOffsets::debug_info_offset: `self.entries[entry.index]` panics when out of range *)
+(* UnitOffsets::debug_info_offset (after /repo fix c42c00d): `let offset = *self.entries.get(entry.index)?;` — an id
+   that was reserved but never added may lie beyond the entries vector: None, like an entry without offset *)
 Definition debug_info_offset (uo : uoffs) (entry : N) : res (option N) :=
   match nth_N (uo_entries uo) entry with
-  | None => Panic
+  | None => Ok None
   | Some o => if o =? 0 then Ok None else Ok (Some o)
   end.
 
